@@ -4,6 +4,7 @@ import (
 	"fmt"
 	"go/token"
 	"go/types"
+	"net"
 	"strings"
 
 	"golang.org/x/tools/go/ssa"
@@ -12,418 +13,861 @@ import (
 func init() {
 	register(&propDef{
 		id: "C41", run: runC41, minOblig: 18,
-		explanation: "Decides the OpenSSH certificate-validity skeleton: CertChecker.CheckCert returns nil only behind each gate with a rejecting edge — revocation (evaluated: IsRevoked set and true => reject), every critical option other than source-address must be found in SupportedCriticalOptions, the principal must be found when ValidPrincipals is non-empty (the comparison is with the principal parameter), the validity window, and the CA signature Verify (receiver skKeyWithoutUP(cert.SignatureKey), arguments cert.bytesForSigning() and cert.Signature of the same certificate); the validity window is evaluated with Go's uint64->int64 conversion semantics over a grid of (ValidAfter, ValidBefore, now) including 0, now±1, 2^63-1, 2^63, 2^64-2 and 2^64-1 and must equal 0 <= after <= now < before with before = 2^64-1 meaning forever and values >= 2^63 rejected; Authenticate / CheckHostKey return success only behind the certificate-type test (user / host), the authority callback on cert.SignatureKey and CheckCert, and CheckHostKey passes the host without port; parseCert rejects a certificate-typed signature key before parsing it, leaves no trailing signature bytes, and parseTuples enforces strictly increasing keys. SIGNED-BYTES clause: the CA signature must be verified over the received bytes — on the pinned tree bytesForSigning re-marshals the parsed structure (KNOWN FINDING, see known_findings.json). NOT decided: ssh-keygen byte equality of SignCert output.",
-		assumptions: []string{"time.Time.Unix contract", "PublicKey.Verify implementations (C40)"},
+		explanation: "Decides the OpenSSH certificate-validity rules by EVALUATING the code as written (concrete evaluator over go/ssa, c41_interp.go; independent of how the code is factored into helpers, loops, slices.Contains, switches) on finite families of certificates and checker configurations, and comparing every verdict with the rule computed in Go: CertChecker.CheckCert accepts iff the revocation callback (when set) does not report the certificate revoked (whatever its serial / type), every critical option other than source-address is listed in SupportedCriticalOptions (families of option names, both map orders), the principal argument is one of ValidPrincipals when that list is non-empty (lists of length 0,1,2,5, match at first / last / no position, empty principal), ValidAfter <= now < ValidBefore with Go's uint64->int64 conversion semantics over a grid of (ValidAfter, ValidBefore) including 0, now±1, 2^63-1, 2^63, 2^64-2 and 2^64-1 (before = 2^64-1 meaning forever, values >= 2^63 rejected), and the CA signature Verify returns nil — where Verify must be called on cert.SignatureKey (possibly through skKeyWithoutUP, evaluated) with the bytes produced from this very certificate and with cert.Signature; Authenticate / CheckHostKey accept iff the certificate type is UserCert / HostCert, the authority callback is set and accepts cert.SignatureKey (for hosts: with the dialled address), and CheckCert — as evaluated on the same certificate — accepts the principal conn.User() / the host part of the address without port (IPv6 literal included; an address without port is rejected); the option-list parser of parseCert (found by its type func([]byte) (map[string]string, error)) accepts exactly the option lists with strictly increasing keys (duplicates, the empty key twice, prefix and case order) and returns exactly the encoded key/value map, rejecting a data field that is not one embedded string. Structural (interprocedural must-cross, helpers expanded in place; a helper whose nil-error returns all lie behind the gate, or that hands a comma-ok lookup result to its caller, establishes the gate for the caller): parseCert reaches ParsePublicKey(SignatureKey) only when the key's algorithm name is not a key of the package-level certificate-algorithm table, and returns success only when the parser of the Signature field reports ok and leaves no bytes. SIGNED-BYTES clause: the function that produced the verified bytes (observed in the accepting runs) is evaluated with (*Certificate).Marshal answered by a model encoding and must return the certificate without its signature field (verifying over Marshal() itself, or without clearing the signature, is a violation); the CA signature must be verified over the received bytes — on the pinned tree that function re-marshals the parsed structure (KNOWN FINDING, see known_findings.json). NOT decided: ssh-keygen byte equality of SignCert output; option names and principals outside the evaluated families.",
+		assumptions: []string{"time.Time.Unix contract", "net.SplitHostPort (evaluated natively)", "PublicKey.Verify implementations (C40)"},
 	})
-	tech("C41", "must-cross CFG rules, finite-domain evaluation of the validity window with fixed-width conversions, provenance rule for the signed bytes")
+	tech("C41", "concrete evaluation of CheckCert / Authenticate / CheckHostKey / parseTuples over finite case families compared with the OpenSSH rules, interprocedural must-cross CFG rules for parseCert, provenance rule for the signed bytes")
 }
 
 func runC41(c *Ctx) {
-	sweepC41(c)
+	// bounds sweep (engine: sweep.go) of the two input-facing parsers; the
+	// option-list parser is located by role, not by name
+	targets := []sweepTarget{{pkg: "ssh", fn: "parseCert", params: []int{0}, maxLen: 9}}
+	if g := c41tuplesParser(c); g != nil {
+		targets = append([]sweepTarget{{pkg: "ssh", fn: g.Name(), params: []int{0}, maxLen: 9}}, targets...)
+	}
+	c.sweepFunctions("C41.bounds-sweep", targets)
+	m := c41newModel(c)
 	f := c.fn("ssh", "(*CertChecker).CheckCert")
-	if f == nil {
-		return
-	}
-	acc := acceptReturns(f, 0)
-	cert := param(f, "cert")
-	principal := param(f, "principal")
-	if cert == nil || principal == nil {
-		cert, principal = f.Params[2], f.Params[1]
-	}
-	// ---- revocation
-	var revCall *ssa.Call
-	allInstrs(f, func(in ssa.Instruction) {
-		if call, ok := in.(*ssa.Call); ok {
-			if _, fld, _, ok := fieldOf(call.Call.Value); ok && fld == "IsRevoked" {
-				revCall = call
-			}
-		}
-	})
-	if revCall == nil {
-		c.fail("C41.revocation", "CheckCert IsRevoked", f, "revocation callback is not consulted")
-	} else {
-		bad := ""
-		for _, tc := range [][2]int64{{1, 1}, {1, 0}, {0, 0}} { // (callback set, result)
-			e := newEnv()
-			e.bindNilTests(f, func(v ssa.Value) bool { return isField(v, "CertChecker", "IsRevoked") }, tc[0] == 0)
-			e.bind(revCall, tc[1])
-			e.solve(f)
-			got := false
-			for _, t := range acc {
-				if e.reach[t.Block()] {
-					got = true
-				}
-			}
-			want := !(tc[0] == 1 && tc[1] == 1)
-			if got != want {
-				bad = fmt.Sprintf("IsRevoked set=%d result=%d: acceptance reachable=%v", tc[0], tc[1], got)
-			}
-		}
-		c.check(bad == "" && revCall.Call.Args[0] == ssa.Value(cert), "C41.revocation", "CheckCert IsRevoked", revCall, "a revoked certificate is rejected before anything else is accepted", bad+" (or the callback is not given this certificate)")
-	}
-	// ---- found-loops: critical options and principals
-	c41FoundLoops(c, f, acc, principal)
-	// ---- validity window
-	c41Window(c, f, acc)
-	// ---- CA signature
-	var ver *ssa.Call
-	for _, ci := range calls(f, nameIs("invoke:(ssh.PublicKey).Verify")) {
-		ver = ci.(*ssa.Call)
-	}
-	if ver == nil {
-		c.fail("C41.ca-signature", "CheckCert Verify", f, "no signature verification")
-	} else {
-		yes, _ := errSuccessEdges(ver)
-		c.mustCross("C41.ca-signature", "CheckCert Verify", f, acc, yes, "the CA signature Verify == nil")
-		okRecv := false
-		if call, ok := ver.Call.Value.(*ssa.Call); ok && short(calleeName(&call.Call)) == "ssh.skKeyWithoutUP" {
-			if _, fld, base, ok := fieldOf(call.Call.Args[0]); ok && fld == "SignatureKey" && base == ssa.Value(cert) {
-				okRecv = true
-			}
-		}
-		if _, fld, base, ok := fieldOf(ver.Call.Value); ok && fld == "SignatureKey" && base == ssa.Value(cert) {
-			okRecv = true
-		}
-		_, sfld, sbase, sok := fieldOf(ver.Call.Args[1])
-		okSig := sok && sfld == "Signature" && sbase == ssa.Value(cert)
-		c.check(okRecv && okSig, "C41.ca-signature", "CheckCert Verify key/signature", ver, "verified with cert.SignatureKey over cert.Signature", "the CA verification does not use this certificate's SignatureKey and Signature")
-		// signed bytes provenance
-		data, _ := ver.Call.Args[0].(*ssa.Call)
-		if data == nil || data.Call.StaticCallee() == nil {
-			c.fail("C41.signed-bytes", "CheckCert Verify data", ver, "the verified data is not produced by a function of this certificate")
-		} else {
-			g := data.Call.StaticCallee()
-			okSelf := len(data.Call.Args) == 1 && data.Call.Args[0] == ssa.Value(cert)
-			c.check(okSelf, "C41.signed-bytes", "CheckCert Verify data receiver", ver, "data computed from this certificate", "the signed bytes are computed from a different certificate value")
-			// does g return retained wire bytes, or a re-serialisation?
-			remarshal := false
-			allInstrs(g, func(in ssa.Instruction) {
-				if call, ok := in.(*ssa.Call); ok {
-					n := short(calleeName(&call.Call))
-					if strings.HasSuffix(n, ".Marshal") || n == "ssh.Marshal" {
-						remarshal = true
-					}
-				}
-			})
-			if remarshal {
-				c.fail("C41.signed-bytes", "(*Certificate).bytesForSigning", g, "the bytes given to the CA signature check are a re-serialisation of the parsed structure, not the received bytes; parsing is not injective (empty option value vs embedded empty string, non-minimal mpints in embedded keys), so a re-encoded certificate verifies under a signature made over different bytes")
-			} else {
-				c.ok("C41.signed-bytes", "(*Certificate).bytesForSigning", g, "no re-serialisation in the signed-bytes function")
+	if m != nil && f != nil {
+		c41Revocation(m, f)
+		c41Membership(m, f)
+		c41Window(m, f)
+		c41Signature(m, f)
+		for _, spec := range []struct {
+			fn, entry, typ string
+		}{
+			{"(*CertChecker).Authenticate", "Authenticate", "UserCert"},
+			{"(*CertChecker).CheckHostKey", "CheckHostKey", "HostCert"},
+		} {
+			if g := c.fn("ssh", spec.fn); g != nil {
+				c41Entry(m, f, g, spec.entry, spec.typ)
 			}
 		}
 	}
-	// ---- Authenticate / CheckHostKey
-	for _, spec := range []struct{ fn, typ, auth string }{
-		{"(*CertChecker).Authenticate", "UserCert", "IsUserAuthority"},
-		{"(*CertChecker).CheckHostKey", "HostCert", "IsHostAuthority"},
-	} {
-		g := c.fn("ssh", spec.fn)
-		if g == nil {
-			continue
-		}
-		// success = returns whose error may be nil and that are not the fallback's own return
-		var succ []ssa.Instruction
-		var cc []ssa.CallInstruction
-		cc = callsNamed(g, "(*ssh.CertChecker).CheckCert")
-		for _, t := range acceptReturns(g, g.Signature.Results().Len()-1) {
-			r := t.(*ssa.Return)
-			ev := r.Results[len(r.Results)-1]
-			isFallback := false
-			for _, l := range phiLeaves(ev) {
-				v := l.val
-				if ex, ok := v.(*ssa.Extract); ok {
-					v = ex.Tuple
-				}
-				if call, ok := v.(*ssa.Call); ok {
-					if _, fld, _, ok := fieldOf(call.Call.Value); ok && strings.HasSuffix(fld, "Fallback") {
-						isFallback = true
-					}
-				}
-			}
-			if !isFallback {
-				succ = append(succ, t)
-			}
-		}
-		// type gate
-		want, okc := pkgConstInt(c, "ssh", spec.typ)
-		var typeEq []edge
-		allInstrs(g, func(in ssa.Instruction) {
-			if bo, ok := in.(*ssa.BinOp); ok && (bo.Op == token.EQL || bo.Op == token.NEQ) {
-				if _, fld, _, ok := fieldOf(bo.X); ok && fld == "CertType" {
-					if k, ok := constInt(bo.Y); ok && okc && k == want {
-						y, _ := boolEdges(bo, bo.Op == token.EQL)
-						typeEq = append(typeEq, y...)
-					}
-				}
-			}
-		})
-		// a return of CheckCert's own result is success only if CheckCert succeeded: treat as target too, gates must precede the call
-		targets := append([]ssa.Instruction{}, succ...)
-		for _, ci := range cc {
-			targets = append(targets, ci)
-		}
-		c.mustCross("C41.cert-type", spec.fn, g, targets, typeEq, "CertType == "+spec.typ)
-		var authPass []edge
-		var authCall *ssa.Call
-		allInstrs(g, func(in ssa.Instruction) {
-			if call, ok := in.(*ssa.Call); ok {
-				if _, fld, _, ok := fieldOf(call.Call.Value); ok && fld == spec.auth {
-					authCall = call
-					y, _ := successEdges(call, 0, isTrue)
-					authPass = append(authPass, y...)
-				}
-			}
-		})
-		c.mustCross("C41.authority", spec.fn, g, targets, authPass, spec.auth+"(cert.SignatureKey) == true")
-		if authCall != nil {
-			_, fld, _, ok := fieldOf(authCall.Call.Args[0])
-			c.check(ok && fld == "SignatureKey", "C41.authority", spec.fn+" authority argument", authCall, "the authority callback sees the certificate's signature key", "the authority callback is not asked about cert.SignatureKey")
-		}
-		// CheckCert success gate for the non-delegating returns
-		var nonDeleg []ssa.Instruction
-		for _, t := range succ {
-			r := t.(*ssa.Return)
-			deleg := false
-			for _, ci := range cc {
-				if r.Results[len(r.Results)-1] == callValue(ci) {
-					deleg = true
-				}
-			}
-			if !deleg {
-				nonDeleg = append(nonDeleg, t)
-			}
-		}
-		if len(nonDeleg) > 0 {
-			c.mustCross("C41.checkcert", spec.fn, g, nonDeleg, callSuccess(cc, -1, isNil), "CheckCert == nil")
-		} else {
-			c.check(len(cc) == 1, "C41.checkcert", spec.fn, g, "returns CheckCert's verdict", "CheckCert is not called")
-		}
-		if spec.typ == "HostCert" && len(cc) == 1 {
-			okHost := false
-			if ex, ok := cc[0].Common().Args[1].(*ssa.Extract); ok && ex.Index == 0 {
-				if call, ok := ex.Tuple.(*ssa.Call); ok && short(calleeName(&call.Call)) == "net.SplitHostPort" && call.Call.Args[0] == ssa.Value(g.Params[1]) {
-					okHost = true
-				}
-			}
-			c.check(okHost, "C41.host-principal", spec.fn, cc[0], "the principal checked is the host part of the dialled address", "CheckHostKey does not pass the host (without port) as the principal")
-		}
-		if spec.typ == "UserCert" && len(cc) == 1 {
-			okUser := false
-			if call, ok := cc[0].Common().Args[1].(*ssa.Call); ok && strings.HasSuffix(calleeName(&call.Call), ".User") {
-				okUser = true
-			}
-			c.check(okUser, "C41.host-principal", spec.fn, cc[0], "the principal checked is the connection's user", "Authenticate does not pass conn.User() as the principal")
-		}
-	}
+	c41Tuples(c, m)
 	c41Parse(c)
 }
 
-func c41FoundLoops(c *Ctx, f *ssa.Function, acc []ssa.Instruction, principal *ssa.Parameter) {
-	// every `found` phi tested by `if !found` => return error. We locate bool
-	// phis whose leaves are the constants false/true and which are branched on.
-	n := 0
-	allInstrs(f, func(in ssa.Instruction) {
-		p, ok := in.(*ssa.Phi)
-		if !ok {
-			return
-		}
-		if b, ok := p.Type().Underlying().(*types.Basic); !ok || b.Kind() != types.Bool {
-			return
-		}
-		yes, _ := boolEdges(p, true)
-		if len(yes) == 0 {
-			return
-		}
-		n++
-		// with found == false the function must not reach acceptance from this test
-		e := newEnv()
-		e.bind(p, 0)
-		cut := e.cuts(f)
-		r := reachAfter(p, cut)
-		okRej := true
-		for _, t := range acc {
-			if r[t.Block()] {
-				okRej = false
-			}
-		}
-		c.check(okRej, "C41.membership", fmt.Sprintf("CheckCert membership test #%d", n), p, "a value not found in the allowed set rejects the certificate", "the 'not found' outcome of this membership loop does not reject the certificate")
-	})
-	c.check(n == 2, "C41.membership", "CheckCert membership loops", f, "critical-option and principal membership loops found", fmt.Sprintf("expected 2 membership loops (critical options, principals), found %d", n))
-	// the principal loop compares with the principal parameter
-	cmp := false
-	var saConst string
-	allInstrs(f, func(in ssa.Instruction) {
-		if bo, ok := in.(*ssa.BinOp); ok && bo.Op == token.EQL {
-			if bo.X == ssa.Value(principal) || bo.Y == ssa.Value(principal) {
-				cmp = true
-			}
-			if s, ok := constString(bo.Y); ok {
-				saConst = s
-			}
-		}
-	})
-	c.check(cmp, "C41.membership", "CheckCert principal comparison", f, "ValidPrincipals entries are compared with the principal argument", "no comparison of a valid principal with the principal argument")
-	c.check(saConst == "source-address", "C41.membership", "CheckCert delegated critical option", f, "only source-address is delegated (enforced by serverAuthenticate, C33)", fmt.Sprintf("critical option %q is skipped by CheckCert", saConst))
-	// principals are enforced whenever the list is non-empty: with
-	// len(ValidPrincipals) in {1,2,5} and nothing found, acceptance is unreachable;
-	// with an empty list the loop is skipped.
-	bad := ""
-	for _, ln := range []int64{0, 1, 2, 5} {
-		e := newEnv()
-		allInstrs(f, func(in ssa.Instruction) {
-			if call, ok := in.(*ssa.Call); ok && calleeName(&call.Call) == "builtin:len" {
-				if _, fld, _, ok := fieldOf(call.Call.Args[0]); ok && fld == "ValidPrincipals" {
-					e.bind(call, ln)
+// ---- revocation: a certificate the callback reports revoked is rejected
+// whatever else it says; without callback / with a negative answer the verdict
+// is the one of the remaining rules.
+func c41Revocation(m *c41model, f *ssa.Function) {
+	var cases []c41case
+	for _, rev := range []int{0, 1, 2} {
+		for _, serial := range []uint64{0, 7, 1<<64 - 1} {
+			for _, typ := range []int64{1, 2} {
+				for _, expired := range []bool{false, true} {
+					k := c41base()
+					k.revoked, k.serial, k.certType = rev, serial, typ
+					if expired {
+						k.before = 50
+					}
+					cases = append(cases, k)
 				}
 			}
-			if p, ok := in.(*ssa.Phi); ok {
-				if b, ok := p.Type().Underlying().(*types.Basic); ok && b.Kind() == types.Bool {
-					if y, _ := boolEdges(p, true); len(y) > 0 {
-						e.bind(p, 0)
+		}
+	}
+	n, bad, und := m.table(f, "CheckCert", cases, func(k c41case) bool { return k.wantCheckCert(k.principal) }, func(k c41case, o *c41obs) string {
+		if k.revoked != 0 && o.accepted {
+			asked := false
+			for _, a := range o.revokedArgs {
+				if p, ok := a.(*c41val); ok && p == o.cert {
+					asked = true
+				}
+			}
+			if !asked {
+				return "accepted without asking IsRevoked about this certificate"
+			}
+		}
+		return ""
+	})
+	m.report("C41.revocation", "CheckCert IsRevoked", f, n, bad, und, "revocation is not decisive", "a certificate reported revoked is rejected whatever its serial, type or validity; the callback is asked about this certificate")
+}
+
+// ---- membership: critical options and principals
+func c41Membership(m *c41model, f *ssa.Function) {
+	names := []string{"force-command", "source-address", "verify-required", "source-addres", "source-address2", "Source-Address", "", "x"}
+	var optCases []c41case
+	supp := [][]string{nil, {"force-command"}, {"x", "force-command"}, {"verify-required", "x", "", "force-command", "source-addres"}, {"source-address"}}
+	var optSets [][]string
+	optSets = append(optSets, nil)
+	for _, a := range names {
+		optSets = append(optSets, []string{a})
+		for _, b := range names {
+			if a != b {
+				optSets = append(optSets, []string{a, b})
+			}
+		}
+	}
+	optSets = append(optSets, []string{"force-command", "source-address", "x"}, []string{"x", "source-address", "force-command"}, []string{"source-address", "verify-required", "force-command"})
+	for _, os := range optSets {
+		for _, s := range supp {
+			k := c41base()
+			k.options, k.supported = os, s
+			optCases = append(optCases, k)
+		}
+	}
+	n, bad, und := m.table(f, "CheckCert", optCases, func(k c41case) bool { return k.wantCheckCert(k.principal) }, nil)
+	m.report("C41.membership", "CheckCert critical options", f, n, bad, und, "critical options are not checked against SupportedCriticalOptions as OpenSSH does", "a certificate is accepted iff every critical option other than source-address (delegated to serverAuthenticate, C33) is listed in SupportedCriticalOptions")
+
+	var prCases []c41case
+	lists := [][]string{nil, {"alice"}, {"bob"}, {""}, {"bob", "alice"}, {"alice", "bob"}, {"bob", "carol"}, {"bob", "carol", "dave", "erin", "alice"}, {"bob", "carol", "dave", "erin", "frank"}, {"alice2", "alic", "Alice"}}
+	for _, l := range lists {
+		for _, p := range []string{"alice", "", "mallory"} {
+			k := c41base()
+			k.principals, k.principal = l, p
+			prCases = append(prCases, k)
+		}
+	}
+	n, bad, und = m.table(f, "CheckCert", prCases, func(k c41case) bool { return k.wantCheckCert(k.principal) }, nil)
+	m.report("C41.membership", "CheckCert principals", f, n, bad, und, "principals are not enforced when listed", "a non-empty ValidPrincipals list always constrains the principal argument (exact match at any position); an empty list accepts every principal")
+}
+
+// ---- validity window
+func c41Window(m *c41model, f *ssa.Function) {
+	now := uint64(c41Now)
+	As := []uint64{0, 50, now - 1, now, now + 1, 1<<63 - 1, 1 << 63, 1<<63 + now, 1<<64 - 2, 1<<64 - 1}
+	Bs := []uint64{0, 50, now - 1, now, now + 1, now + 1000, 1<<63 - 1, 1 << 63, 1<<63 + now + 5, 1<<64 - 2, 1<<64 - 1}
+	var cases []c41case
+	for _, A := range As {
+		for _, B := range Bs {
+			k := c41base()
+			k.after, k.before = A, B
+			cases = append(cases, k)
+		}
+	}
+	for _, t := range []int64{0, 49, 50, 51, -1} {
+		for _, A := range []uint64{0, 50, 51} {
+			for _, B := range []uint64{0, 50, 51, 1<<64 - 1} {
+				k := c41base()
+				k.now, k.after, k.before = t, A, B
+				cases = append(cases, k)
+			}
+		}
+	}
+	// a clock before 1970: values >= 2^63 stay rejected (they are not "negative times")
+	for _, t := range []int64{-1, -5, -1 << 62} {
+		for _, A := range []uint64{0, 1<<64 - 2, 1<<64 - 1, 1 << 63} {
+			for _, B := range []uint64{50, 1<<64 - 2, 1 << 63, 1<<64 - 1} {
+				k := c41base()
+				k.now, k.after, k.before = t, A, B
+				cases = append(cases, k)
+			}
+		}
+	}
+	n, bad, und := m.table(f, "CheckCert", cases, func(k c41case) bool { return k.wantCheckCert(k.principal) }, nil)
+	m.report("C41.window", "CheckCert validity window", f, n, bad, und, "validity window differs from ValidAfter <= now < ValidBefore", "window predicate equals 0 <= ValidAfter <= now < ValidBefore (2^64-1 = forever, values >= 2^63 rejected)")
+}
+
+// ---- CA signature: Verify decides, and it is asked with this certificate's
+// signature key, bytes and signature. The function that produced the bytes is
+// then examined for the SIGNED-BYTES clause.
+func c41Signature(m *c41model, f *ssa.Function) {
+	c := m.c
+	var cases []c41case
+	for _, ve := range []bool{false, true} {
+		for _, pr := range [][]string{nil, {"alice"}} {
+			for _, opt := range [][]string{nil, {"source-address"}} {
+				k := c41base()
+				k.verifyErr, k.principals, k.options = ve, pr, opt
+				cases = append(cases, k)
+			}
+		}
+	}
+	var producer *ssa.Function
+	n, bad, und := m.table(f, "CheckCert", cases, func(k c41case) bool { return k.wantCheckCert(k.principal) }, func(k c41case, o *c41obs) string {
+		if !o.accepted {
+			return ""
+		}
+		if len(o.verifies) == 0 {
+			return "accepted without verifying the CA signature with cert.SignatureKey"
+		}
+		for _, v := range o.verifies {
+			if v.recv != o.caKey {
+				return "the CA verification does not use this certificate's SignatureKey"
+			}
+			if p, ok := v.sig.(*c41val); !ok || p != o.sigPtr {
+				return "the CA verification does not use this certificate's Signature"
+			}
+			d, ok := v.data.(*c41obj)
+			if !ok || d.kind != "certbytes" {
+				return "the verified data is not produced by a function of this certificate"
+			}
+			cb := d.data.(c41certBytes)
+			if p, ok := cb.cert.(*c41val); !ok || p != o.cert {
+				return "the signed bytes are computed from a different certificate value"
+			}
+			producer = cb.fn
+		}
+		return ""
+	})
+	m.report("C41.ca-signature", "CheckCert Verify", f, n, bad, und, "the CA signature check is not decisive or not made over this certificate", "accepted iff Verify == nil, verified with cert.SignatureKey over the bytes of this certificate and cert.Signature")
+	if producer == nil {
+		if bad == "" {
+			c.undecided("C41.signed-bytes", "CheckCert Verify data", f, "no accepting run showed which bytes are verified")
+		}
+		return
+	}
+	// Which bytes does the producer return? It is evaluated with the exported
+	// (*Certificate).Marshal answered by a model encoding: an 8-byte body followed
+	// by the signature field (length 0 when Signature is nil). The signed bytes
+	// must be the body alone — the certificate without signature field.
+	marshal := c.fnOpt("ssh", "(*Certificate).Marshal")
+	if producer == marshal {
+		c.fail("C41.signed-bytes", "CheckCert Verify data", f, "the CA signature is verified over the whole marshalled certificate, signature field included, not over the signed part")
+		return
+	}
+	body := []byte{1, 2, 3, 4, 5, 6, 7, 8}
+	if marshal != nil {
+		obs := &c41obs{}
+		it, _, _, ok := m.build(c41base(), obs)
+		if ok {
+			st, _ := m.certNamed.Underlying().(*types.Struct)
+			it.hook = func(fn *ssa.Function, args []c41val) (c41val, bool) {
+				if fn != marshal || len(args) != 1 {
+					return nil, false
+				}
+				p, isP := args[0].(*c41val)
+				if !isP || p == nil {
+					return nil, false
+				}
+				cv, isS := (*p).(c41struct)
+				if !isS || st == nil {
+					return nil, false
+				}
+				out := append([]byte{}, body...)
+				if sp := c41field(cv, st, "Signature"); sp != nil {
+					if q, isQ := (*sp).(*c41val); isQ && q == nil {
+						return c41bytes(append(out, 0, 0, 0, 0)), true
+					}
+				}
+				return c41bytes(append(out, 0, 0, 0, 2, 9, 9)), true
+			}
+			res, end, _ := it.run(producer, []c41val{obs.cert})
+			if got, isB := res.([]c41val); end == "return" && isB {
+				same := len(got) == len(body)
+				for i := 0; same && i < len(body); i++ {
+					n, isN := got[i].(int64)
+					same = isN && n == int64(body[i])
+				}
+				if !same {
+					c.fail("C41.signed-bytes", "CheckCert Verify data", producer, fmt.Sprintf("the bytes given to the CA signature check are not the marshalled certificate without its signature field (%d bytes of a %d-byte body followed by the signature field)", len(got), len(body)))
+					return
+				}
+			}
+		}
+	}
+	// does the producer return retained wire bytes, or a re-serialisation?
+	remarshal := false
+	deepInstrs(producer, func(in ssa.Instruction) {
+		if call, ok := in.(*ssa.Call); ok {
+			n := short(calleeName(&call.Call))
+			if strings.HasSuffix(n, ".Marshal") || n == "ssh.Marshal" {
+				remarshal = true
+			}
+		}
+	})
+	if remarshal {
+		c.fail("C41.signed-bytes", "(*Certificate).bytesForSigning", producer, "the bytes given to the CA signature check are a re-serialisation of the parsed structure, not the received bytes; parsing is not injective (empty option value vs embedded empty string, non-minimal mpints in embedded keys), so a re-encoded certificate verifies under a signature made over different bytes")
+	} else {
+		c.ok("C41.signed-bytes", "(*Certificate).bytesForSigning", producer, "no re-serialisation in the signed-bytes function")
+	}
+}
+
+// ---- Authenticate / CheckHostKey
+func c41Entry(m *c41model, f, g *ssa.Function, entry, typ string) {
+	c := m.c
+	wantType, okc := pkgConstInt(c, "ssh", typ)
+	if !okc {
+		c.fail("anchor", "ssh."+typ, nil, "exported constant not found in the current tree; the rule cannot be evaluated")
+		return
+	}
+	host := entry == "CheckHostKey"
+	base := func() c41case {
+		k := c41base()
+		if host {
+			k.addr = "host.example:22"
+		}
+		return k
+	}
+	principalOf := func(k c41case) (string, bool) {
+		if !host {
+			return k.principal, true
+		}
+		h, _, err := net.SplitHostPort(k.addr)
+		return h, err == nil
+	}
+	// The entry points are compared with CheckCert AS EVALUATED on the same
+	// certificate and the principal they must pass on (CheckCert itself is
+	// compared with the OpenSSH rules by the rules above), so that each rule
+	// names its own defect only.
+	want := func(k c41case) bool {
+		p, ok := principalOf(k)
+		if !ok || k.certType != wantType || k.authority != 2 {
+			return false
+		}
+		kk := k
+		kk.principal, kk.addr = p, ""
+		o := m.run(f, "CheckCert", kk)
+		return o.end == "return" && o.accepted
+	}
+	authSeen := func(k c41case, o *c41obs) string {
+		if !o.accepted {
+			return ""
+		}
+		asked := false
+		for _, a := range o.authArgs {
+			if len(a) > 0 {
+				if i, ok := a[0].(c41iface); ok && i.v == c41val(o.caKey) {
+					asked = true
+					if host && (len(a) < 2 || a[1] != c41val(k.addr)) {
+						return "the host authority callback is not given the dialled address"
 					}
 				}
 			}
-		})
-		cut := e.cuts(f)
-		r := reach([]*ssa.BasicBlock{f.Blocks[0]}, cut)
-		got := false
-		for _, t := range acc {
-			if r[t.Block()] {
-				got = true
-			}
 		}
-		if got != (ln == 0) {
-			bad = fmt.Sprintf("len(ValidPrincipals)=%d and no principal matches: acceptance reachable=%v", ln, got)
+		if !asked {
+			return "accepted without asking the authority callback about cert.SignatureKey"
+		}
+		return ""
+	}
+	// type gate
+	var cases []c41case
+	for _, t := range []int64{0, 1, 2, 3, 1 << 31} {
+		k := base()
+		k.certType = t
+		cases = append(cases, k)
+	}
+	n, bad, und := m.table(g, entry, cases, want, nil)
+	m.report("C41.cert-type", "(*CertChecker)."+entry, g, n, bad, und, "the certificate type gate CertType == "+typ+" is not enforced", "accepted only when CertType == "+typ)
+	// authority gate
+	cases = nil
+	for _, a := range []int{0, 1, 2} {
+		for _, serial := range []uint64{0, 7} {
+			k := base()
+			k.certType, k.authority, k.serial = wantType, a, serial
+			cases = append(cases, k)
 		}
 	}
-	c.check(bad == "", "C41.membership", "CheckCert principals enforced when listed", f, "a non-empty principal list always constrains the principal", bad)
+	n, bad, und = m.table(g, entry, cases, want, authSeen)
+	m.report("C41.authority", "(*CertChecker)."+entry, g, n, bad, und, "the authority callback is not decisive", "accepted only when the authority callback accepts cert.SignatureKey")
+	// CheckCert's verdict is part of the verdict
+	cases = nil
+	for i := 0; i < 6; i++ {
+		k := base()
+		k.certType = wantType
+		switch i {
+		case 1:
+			k.revoked = 2
+		case 2:
+			k.before = 50
+		case 3:
+			k.options = []string{"force-command"}
+		case 4:
+			k.verifyErr = true
+		case 5:
+			k.after = 1 << 63
+		}
+		cases = append(cases, k)
+	}
+	n, bad, und = m.table(g, entry, cases, want, nil)
+	m.report("C41.checkcert", "(*CertChecker)."+entry, g, n, bad, und, "CheckCert's verdict is not part of the verdict", "accepted only when CheckCert accepts (revocation, window, options, CA signature)")
+	// the principal that is checked
+	cases = nil
+	if host {
+		for _, tc := range []struct {
+			addr string
+			pr   []string
+		}{
+			{"host.example:22", []string{"host.example"}},
+			{"host.example:22", []string{"host.example:22"}},
+			{"host.example:22", []string{"other.example", "host.example"}},
+			{"host.example:22", []string{"other.example"}},
+			{"host.example:2222", []string{"host.example"}},
+			{"[::1]:22", []string{"::1"}},
+			{"[::1]:22", []string{"[::1]"}},
+			{"[::1]:22", []string{"[::1]:22"}},
+			{"10.0.0.1:22", []string{"10.0.0.1"}},
+			{"host.example", []string{"host.example"}},
+			{"host.example", nil},
+			{"host.example:22", nil},
+		} {
+			k := base()
+			k.certType, k.addr, k.principals = wantType, tc.addr, tc.pr
+			cases = append(cases, k)
+		}
+	} else {
+		for _, tc := range []struct {
+			user string
+			pr   []string
+		}{{"alice", []string{"alice"}}, {"alice", []string{"bob"}}, {"bob", []string{"alice", "bob"}}, {"", []string{"alice"}}, {"mallory", nil}} {
+			k := base()
+			k.certType, k.principal, k.principals = wantType, tc.user, tc.pr
+			cases = append(cases, k)
+		}
+	}
+	n, bad, und = m.table(g, entry, cases, want, nil)
+	if host {
+		m.report("C41.host-principal", "(*CertChecker)."+entry, g, n, bad, und, "CheckHostKey does not pass the host (without port) as the principal", "the principal checked is the host part of the dialled address (without port)")
+	} else {
+		m.report("C41.host-principal", "(*CertChecker)."+entry, g, n, bad, und, "Authenticate does not pass conn.User() as the principal", "the principal checked is the connection's user")
+	}
 }
 
-func c41Window(c *Ctx, f *ssa.Function, acc []ssa.Instruction) {
-	var unix *ssa.Call
-	for _, ci := range callsNamed(f, "(time.Time).Unix") {
-		unix = ci.(*ssa.Call)
-	}
-	if unix == nil {
-		c.fail("C41.window", "CheckCert validity window", f, "current time not read")
+// ---- parseTuples: strictly increasing keys, exact key/value map
+func c41Tuples(c *Ctx, m *c41model) {
+	g := c41tuplesParser(c)
+	if g == nil || m == nil {
 		return
 	}
-	const now = int64(1_700_000_000)
-	u := func(x uint64) int64 { return int64(x) }
-	As := []int64{0, 50, now - 1, now, now + 1, u(1<<63 - 1), u(1 << 63), u(1<<63 + uint64(now)), u(1<<64 - 2), u(1<<64 - 1)}
-	Bs := []int64{0, 50, now - 1, now, now + 1, now + 1000, u(1<<63 - 1), u(1 << 63), u(1<<63 + uint64(now) + 5), u(1<<64 - 2), u(1<<64 - 1)}
-	bad := ""
-	n := 0
-	for _, A := range As {
-		for _, B := range Bs {
-			e := newEnv()
-			e.bind(unix, now)
-			e.bindField(f, "Certificate", "ValidAfter", A)
-			e.bindField(f, "Certificate", "ValidBefore", B)
-			cut := e.cuts(f)
-			r := reachAfter(unix, cut)
-			got := false
-			for _, t := range acc {
-				if r[t.Block()] {
-					got = true
-				}
-			}
-			ua, ub := uint64(A), uint64(B)
-			want := ua < 1<<63 && uint64(now) >= ua && (ub == 1<<64-1 || (ub < 1<<63 && uint64(now) < ub))
-			n++
-			if got != want && bad == "" {
-				bad = fmt.Sprintf("ValidAfter=%d ValidBefore=%d now=%d: acceptance reachable=%v, OpenSSH rule gives %v", ua, ub, now, got, want)
-			}
-		}
-	}
-	c.check(bad == "", "C41.window", "CheckCert validity window", unix, fmt.Sprintf("window predicate equals 0 <= after <= now < before (2^64-1 = forever, >= 2^63 rejected) on %d cases", n), bad)
+	c41TuplesOn(c, m, g)
 }
 
+// c41tuplesParser: the option-list parser, by role: the helper of parseCert of
+// type func([]byte) (map[string]string, error) (by name only as a fallback).
+func c41tuplesParser(c *Ctx) *ssa.Function {
+	var g *ssa.Function
+	if pc := c.fnOpt("ssh", "parseCert"); pc != nil {
+		for _, h := range deepFuncs(pc)[1:] {
+			sig := h.Signature
+			if sig.Recv() != nil || sig.Params().Len() != 1 || sig.Results().Len() != 2 {
+				continue
+			}
+			mt, isMap := sig.Results().At(0).Type().Underlying().(*types.Map)
+			if !isMap || !types.Identical(mt.Key(), types.Typ[types.String]) || !types.Identical(mt.Elem(), types.Typ[types.String]) {
+				continue
+			}
+			if !types.Identical(sig.Params().At(0).Type(), types.NewSlice(types.Typ[types.Byte])) ||
+				!types.Identical(sig.Results().At(1).Type(), types.Universe.Lookup("error").Type()) {
+				continue
+			}
+			g = h
+			break
+		}
+	}
+	if g == nil {
+		g = c.fn("ssh", "parseTuples")
+	}
+	return g
+}
+
+func c41TuplesOn(c *Ctx, m *c41model, g *ssa.Function) {
+	T := func(kv ...string) []c41tuple2 {
+		var out []c41tuple2
+		for i := 0; i+1 < len(kv); i += 2 {
+			out = append(out, c41tuple2{key: kv[i], val: kv[i+1]})
+		}
+		return out
+	}
+	run := func(wire []byte) (res map[string]string, accepted bool, end, why string) {
+		it := c41newInterp(c.ld.prog)
+		r, end, why := it.run(g, []c41val{c41bytes(wire)})
+		if end != "return" {
+			return nil, false, end, why
+		}
+		t, ok := r.(c41tuple)
+		if !ok || len(t) != 2 {
+			return nil, false, "undecided", "parseTuples does not return (map, error)"
+		}
+		isNil, known := c41isNilErr(t[1])
+		if !known {
+			return nil, false, "undecided", "the error result of parseTuples is outside the model"
+		}
+		if !isNil {
+			return nil, false, "return", ""
+		}
+		mm, ok := t[0].(*c41map)
+		if !ok {
+			return nil, false, "undecided", "the map result of parseTuples is outside the model"
+		}
+		res = map[string]string{}
+		if mm != nil {
+			for k, v := range mm.m {
+				ks, ok1 := k.(string)
+				vs, ok2 := v.(string)
+				if !ok1 || !ok2 {
+					return nil, false, "undecided", "the map result of parseTuples is outside the model"
+				}
+				res[ks] = vs
+			}
+		}
+		return res, true, "return", ""
+	}
+	// order
+	orderCases := [][]c41tuple2{
+		nil, T("a", ""), T("a", "1", "b", "2"), T("a", "", "b", "", "c", "v"), T("", "", "a", ""), T("a", "", "ab", ""), T("B", "", "a", ""),
+		T("force-command", "ls", "source-address", "10.0.0.0/8"), T("permit-X11-forwarding", "", "permit-pty", ""),
+		T("b", "", "a", ""), T("a", "", "a", ""), T("a", "1", "a", "2"), T("", "", "", ""), T("ab", "", "a", ""), T("a", "", "B", ""),
+		T("a", "", "b", "", "b", ""), T("a", "", "c", "", "b", ""), T("a", "", "b", "", "a", ""), T("b", "", "c", "", "a", ""),
+		T("source-address", "10.0.0.0/8", "force-command", "ls"), T("force-command", "ls", "force-command", "sh"),
+	}
+	n, bad, und := 0, "", false
+	for _, ts := range orderCases {
+		want := true
+		for i := 1; i < len(ts); i++ {
+			if !(ts[i-1].key < ts[i].key) {
+				want = false
+			}
+		}
+		res, acc, end, why := run(c41wireTuples(ts))
+		n++
+		switch {
+		case end == "undecided":
+			bad, und = fmt.Sprintf("parseTuples could not be evaluated on [%s]: %s", c41tuplesString(ts), why), true
+		case end == "panic":
+			bad = fmt.Sprintf("parseTuples panics on [%s]: %s", c41tuplesString(ts), why)
+		case acc && !want:
+			bad = fmt.Sprintf("option keys are no longer required to be strictly increasing (duplicate or unordered options accepted): parseTuples accepts [%s]", c41tuplesString(ts))
+		case !acc && want:
+			bad = fmt.Sprintf("parseTuples rejects the ordered option list [%s]", c41tuplesString(ts))
+		case acc:
+			if len(res) != len(ts) {
+				bad = fmt.Sprintf("parseTuples returns %d entries for [%s]", len(res), c41tuplesString(ts))
+			}
+			for _, t := range ts {
+				if v, ok := res[t.key]; !ok || v != t.val {
+					bad = fmt.Sprintf("parseTuples returns %q for key %q of [%s]", v, t.key, c41tuplesString(ts))
+				}
+			}
+		}
+		if bad != "" {
+			break
+		}
+	}
+	m.report("C41.tuple-order", "parseTuples", g, n, bad, und, "", "a key that is not strictly greater than the previous key is rejected; ordered lists are accepted and returned exactly")
+	// data field encoding: empty, or exactly one embedded string
+	n, bad, und = 0, "", false
+	for _, tc := range []struct {
+		ts   []c41tuple2
+		want bool
+		tail []byte
+	}{
+		{[]c41tuple2{{key: "a", val: "\x00\x00\x00\x01v", raw: true}}, true, nil},
+		{[]c41tuple2{{key: "a", val: "\x00\x00\x00\x00", raw: true}}, true, nil},
+		{[]c41tuple2{{key: "a", val: "v", raw: true}}, false, nil},
+		{[]c41tuple2{{key: "a", val: "\x00\x00\x00\x02v", raw: true}}, false, nil},
+		{[]c41tuple2{{key: "a", val: "\x00\x00\x00\x01vw", raw: true}}, false, nil},
+		{[]c41tuple2{{key: "a", val: "\x00\x00\x00\x01v\x00\x00\x00\x00", raw: true}}, false, nil},
+		{T("a", "v"), false, []byte{0}},
+		{T("a", "v"), false, []byte{0, 0, 0, 1}},
+		{T("a", "v"), false, []byte{0, 0, 0, 1, 'b'}},
+	} {
+		wire := append(c41wireTuples(tc.ts), tc.tail...)
+		_, acc, end, why := run(wire)
+		n++
+		switch {
+		case end == "undecided":
+			bad, und = fmt.Sprintf("parseTuples could not be evaluated on % x: %s", wire, why), true
+		case end == "panic":
+			bad = fmt.Sprintf("parseTuples panics on % x: %s", wire, why)
+		case acc != tc.want:
+			bad = fmt.Sprintf("parseTuples %s the encoding % x; [PROTOCOL.certkeys] %s it", map[bool]string{true: "accepts", false: "rejects"}[acc], wire, map[bool]string{true: "accepts", false: "rejects"}[tc.want])
+		}
+		if bad != "" {
+			break
+		}
+	}
+	m.report("C41.tuple-order", "parseTuples data field", g, n, bad, und, "option data field encoding", "a data field is empty or exactly one embedded string; truncated input is rejected")
+}
+
+// ---- parseCert (structural, interprocedural)
 func c41Parse(c *Ctx) {
 	f := c.fn("ssh", "parseCert")
 	if f == nil {
 		return
 	}
+	isSigKey := func(v ssa.Value) bool {
+		_, fld, _, ok := fieldOf(c.origin(v))
+		return ok && fld == "SignatureKey"
+	}
 	// nested certificate rejection before ParsePublicKey(g.SignatureKey)
-	var ppk *ssa.Call
-	for _, ci := range callsNamed(f, "ssh.ParsePublicKey") {
-		if _, fld, _, ok := fieldOf(ci.Common().Args[0]); ok && fld == "SignatureKey" {
-			ppk = ci.(*ssa.Call)
+	var ppk []ssa.Instruction
+	for _, ci := range deepCallsNamed(f, "ssh.ParsePublicKey") {
+		if len(ci.Common().Args) > 0 && isSigKey(ci.Common().Args[0]) {
+			ppk = append(ppk, ci)
 		}
 	}
-	var notCert []edge
-	allInstrs(f, func(in ssa.Instruction) {
-		lk, ok := in.(*ssa.Lookup)
-		if !ok || !lk.CommaOk || accessPath(lk.X) != "certKeyAlgoNames" {
-			return
-		}
-		for _, r := range *lk.Referrers() {
-			if ex, ok := r.(*ssa.Extract); ok && ex.Index == 1 {
-				_, no := boolEdges(ex, true)
-				notCert = append(notCert, no...)
-			}
-		}
-	})
-	if ppk == nil {
+	// pass: the algorithm name read from the signature key is NOT a key of a
+	// package-level string-keyed table (the certificate algorithm table)
+	notCert := c41notFoundEdges(c, f, isSigKey)
+	if len(ppk) == 0 {
 		c.fail("C41.nested-cert", "parseCert", f, "ParsePublicKey(g.SignatureKey) not found")
 	} else {
-		c.mustCross("C41.nested-cert", "parseCert", f, []ssa.Instruction{ppk}, notCert, "the signature key's algorithm not being a certificate algorithm")
+		c.mustCrossDeep("C41.nested-cert", "parseCert", f, ppk, c41liftPass(f, notCert), "the signature key's algorithm not being a certificate algorithm")
 	}
-	// trailing bytes after the signature rejected: acceptReturns behind len(rest)==0 on parseSignatureBody's rest
+	// trailing bytes after the signature rejected: the function that parses the
+	// Signature field returns (…, rest []byte, ok bool); success lies behind
+	// len(rest) == 0 and ok == true
 	var psb *ssa.Call
-	for _, ci := range callsNamed(f, "ssh.parseSignatureBody") {
-		psb = ci.(*ssa.Call)
-	}
+	deepInstrs(f, func(in ssa.Instruction) {
+		call, ok := in.(*ssa.Call)
+		if !ok || samePkgCallee(f, &call.Call) == nil || len(call.Call.Args) == 0 {
+			return
+		}
+		if _, fld, _, ok := fieldOf(c.origin(call.Call.Args[0])); !ok || fld != "Signature" {
+			return
+		}
+		if c41restOkIndex(call) >= 0 {
+			psb = call
+		}
+	})
 	if psb != nil {
+		ri, oi := c41restOkIndex(psb), -1
+		res := psb.Call.Signature().Results()
+		for i := 0; i < res.Len(); i++ {
+			if b, ok := res.At(i).Type().Underlying().(*types.Basic); ok && b.Kind() == types.Bool {
+				oi = i
+			}
+		}
 		var pass []edge
-		for _, rv := range resultN(psb, 1) {
-			allInstrs(f, func(in ssa.Instruction) {
-				if call, ok := in.(*ssa.Call); ok && calleeName(&call.Call) == "builtin:len" && call.Call.Args[0] == rv {
+		for _, rv := range resultN(psb, ri) {
+			deepInstrs(f, func(in ssa.Instruction) {
+				if call, ok := in.(*ssa.Call); ok && calleeName(&call.Call) == "builtin:len" && c.origin(call.Call.Args[0]) == rv {
 					pass = append(pass, edgesImplying(call, []int64{0, 1, 2}, func(d int64) bool { return d == 0 })...)
 				}
 			})
 		}
-		c.mustCross("C41.trailing", "parseCert signature", f, acceptReturns(f, 1), pass, "no bytes left after the signature")
-		okEdges := callSuccess([]ssa.CallInstruction{psb}, 2, isTrue)
-		c.mustCross("C41.trailing", "parseCert signature ok", f, acceptReturns(f, 1), okEdges, "parseSignatureBody ok == true")
+		c.mustCrossDeep("C41.trailing", "parseCert signature", f, acceptReturns(f, 1), c41liftPass(f, pass), "no bytes left after the signature")
+		okEdges := callSuccess([]ssa.CallInstruction{psb}, oi, isTrue)
+		c.mustCrossDeep("C41.trailing", "parseCert signature ok", f, acceptReturns(f, 1), c41liftPass(f, okEdges), "the signature parser's ok == true")
 	} else {
-		c.fail("C41.trailing", "parseCert signature", f, "parseSignatureBody not called")
+		c.fail("C41.trailing", "parseCert signature", f, "the certificate's Signature field is not parsed by a function returning (signature, rest, ok)")
 	}
-	// parseTuples: strictly increasing keys
-	if g := c.fn("ssh", "parseTuples"); g != nil {
-		var le *ssa.BinOp
-		allInstrs(g, func(in ssa.Instruction) {
-			if bo, ok := in.(*ssa.BinOp); ok && (bo.Op == token.LEQ || bo.Op == token.GTR || bo.Op == token.LSS || bo.Op == token.GEQ) {
-				if b, ok := bo.X.Type().Underlying().(*types.Basic); ok && b.Info()&types.IsString != 0 {
-					le = bo
+}
+
+// c41liftPass: the pass edges of a gate may lie in a helper that reports the
+// outcome through its error result (`if err := checkFoo(x); err != nil { return }`).
+// A helper whose every possibly-nil-error return lies behind the pass edges
+// ESTABLISHES the gate for its callers: the success edges (err == nil) of the
+// calls to it are then pass edges too. Applied repeatedly for nested helpers.
+func c41liftPass(fn *ssa.Function, pass []edge) []edge {
+	out := append([]edge{}, pass...)
+	have := edgeSet{}
+	have.addAll(out)
+	helpers := deepFuncs(fn)
+	for round := 0; round < deepDepth; round++ {
+		grew := false
+		for _, h := range helpers[1:] {
+			res := h.Signature.Results()
+			if res.Len() == 0 || !types.Identical(res.At(res.Len()-1).Type(), types.Universe.Lookup("error").Type()) {
+				continue
+			}
+			inside := false
+			for _, g := range deepFuncs(h) {
+				for e := range have {
+					if e.from.Parent() == g {
+						inside = true
+					}
 				}
 			}
-		})
-		okOrd := false
-		if le != nil {
-			// the edge on which the new key is <= the previous key must lead to an error return, under haveLastKey
-			var rej []edge
-			switch le.Op {
-			case token.LEQ:
-				rej, _ = boolEdges(le, true)
-			case token.GTR:
-				rej, _ = boolEdges(le, false)
+			if !inside {
+				continue
 			}
-			okOrd = len(rej) > 0
-			for _, e := range rej {
-				blk := e.to()
-				r, isRet := blk.Instrs[len(blk.Instrs)-1].(*ssa.Return)
-				if !isRet || errNilness(r.Results[1], blk, 0) != neverNil {
-					okOrd = false
+			acc := map[ssa.Instruction]bool{}
+			for _, r := range acceptReturns(h, res.Len()-1) {
+				acc[r] = true
+			}
+			if deepReach(h, have, func(in ssa.Instruction) bool { return acc[in] }) != nil {
+				continue
+			}
+			for _, g := range helpers {
+				if g == h {
+					continue
 				}
-			}
-			// operands: new key (string of parsed key) vs phi lastKey
-			_, isPhi := le.Y.(*ssa.Phi)
-			_, isPhiX := le.X.(*ssa.Phi)
-			if !isPhi && !isPhiX {
-				okOrd = false
+				allInstrs(g, func(in ssa.Instruction) {
+					call, ok := in.(*ssa.Call)
+					if !ok || call.Call.StaticCallee() != h {
+						return
+					}
+					for _, e := range callSuccess([]ssa.CallInstruction{call}, -1, isNil) {
+						if !have[e] {
+							have[e] = true
+							out = append(out, e)
+							grew = true
+						}
+					}
+				})
 			}
 		}
-		c.check(okOrd, "C41.tuple-order", "parseTuples", g, "a key that is not strictly greater than the previous key is rejected", "option keys are no longer required to be strictly increasing (duplicate or unordered options accepted)")
+		if !grew {
+			break
+		}
 	}
+	return out
+}
+
+// c41restOkIndex: index of the []byte "rest" result of a call whose results
+// are (*Signature-like, []byte, bool); -1 when the call has another shape.
+func c41restOkIndex(call *ssa.Call) int {
+	res := call.Call.Signature().Results()
+	ri, hasBool := -1, false
+	for i := 0; i < res.Len(); i++ {
+		switch t := res.At(i).Type().Underlying().(type) {
+		case *types.Slice:
+			if b, ok := t.Elem().Underlying().(*types.Basic); ok && b.Kind() == types.Uint8 {
+				ri = i
+			}
+		case *types.Basic:
+			if t.Kind() == types.Bool {
+				hasBool = true
+			}
+		}
+	}
+	if !hasBool || res.Len() < 3 {
+		return -1
+	}
+	return ri
+}
+
+func c41loadOfGlobal(v ssa.Value) (*ssa.Global, bool) {
+	if u, ok := v.(*ssa.UnOp); ok {
+		if g, ok := u.X.(*ssa.Global); ok {
+			return g, true
+		}
+	}
+	return nil, false
+}
+
+// c41derivesFrom: v is computed (conversions, slices, extracted results of
+// calls) from a value satisfying is.
+func c41derivesFrom(c *Ctx, v ssa.Value, is func(ssa.Value) bool, depth int) bool {
+	if v == nil || depth > 8 {
+		return false
+	}
+	v = c.origin(v)
+	if is(v) {
+		return true
+	}
+	switch x := v.(type) {
+	case *ssa.Convert:
+		return c41derivesFrom(c, x.X, is, depth+1)
+	case *ssa.ChangeType:
+		return c41derivesFrom(c, x.X, is, depth+1)
+	case *ssa.Slice:
+		return c41derivesFrom(c, x.X, is, depth+1)
+	case *ssa.Extract:
+		return c41derivesFrom(c, x.Tuple, is, depth+1)
+	case *ssa.Phi:
+		for _, e := range x.Edges {
+			if c41derivesFrom(c, e, is, depth+1) {
+				return true
+			}
+		}
+	case *ssa.Call:
+		for _, a := range x.Call.Args {
+			if c41derivesFrom(c, a, is, depth+1) {
+				return true
+			}
+		}
+	}
+	return false
+}
+
+// c41notFoundEdges: the edges of fn and its helpers on which a value derived
+// from a source (is) is known NOT to be a key of a package-level table: the
+// `ok == false` edges of a comma-ok map lookup whose key derives from the
+// source — where the lookup may sit in a helper (`func isFoo(name) bool`)
+// that hands the `ok` to its caller, and the key may be a helper parameter
+// whose argument derives from the source at the call site.
+func c41notFoundEdges(c *Ctx, fn *ssa.Function, is func(ssa.Value) bool) []edge {
+	var out []edge
+	fs := deepFuncs(fn)
+	inDeep := map[*ssa.Function]bool{}
+	for _, g := range fs {
+		inDeep[g] = true
+	}
+	// the edges on which the calls cs of h see ex (a bool computed in h and
+	// returned as it is, or negated, by every return of h) == false
+	returned := func(h *ssa.Function, ex ssa.Value, cs []ssa.CallInstruction) []edge {
+		var es []edge
+		rets := returnsOf(h)
+		if len(rets) == 0 {
+			return nil
+		}
+		for j := range rets[0].Results {
+			same, neg := true, true
+			for _, r := range rets {
+				if j >= len(r.Results) || r.Results[j] != ex {
+					same = false
+				}
+				if u, ok := r.Results[j].(*ssa.UnOp); !ok || u.Op != token.NOT || u.X != ex {
+					neg = false
+				}
+			}
+			if !same && !neg {
+				continue
+			}
+			for _, ci := range cs {
+				call, ok := ci.(*ssa.Call)
+				if !ok {
+					continue
+				}
+				for _, rv := range resultN(call, j) {
+					yes, no := boolEdges(rv, true)
+					if same {
+						es = append(es, no...)
+					} else {
+						es = append(es, yes...)
+					}
+				}
+			}
+		}
+		return es
+	}
+	for _, h := range fs {
+		var sitesIn []ssa.CallInstruction
+		for _, cs := range c.callersOf(h) {
+			if inDeep[cs.Parent()] {
+				sitesIn = append(sitesIn, cs)
+			}
+		}
+		allInstrs(h, func(in ssa.Instruction) {
+			lk, ok := in.(*ssa.Lookup)
+			if !ok || !lk.CommaOk {
+				return
+			}
+			if _, isGlobal := c41loadOfGlobal(lk.X); !isGlobal {
+				return
+			}
+			var oks []*ssa.Extract
+			for _, r := range *lk.Referrers() {
+				if ex, ok := r.(*ssa.Extract); ok && ex.Index == 1 {
+					oks = append(oks, ex)
+				}
+			}
+			if c41derivesFrom(c, lk.Index, is, 0) {
+				for _, ex := range oks {
+					_, no := boolEdges(ex, true)
+					out = append(out, no...)
+					out = append(out, returned(h, ex, sitesIn)...)
+				}
+				return
+			}
+			// the key is a parameter of the helper: decide per call site
+			pi := -1
+			for i, p := range h.Params {
+				if stripConv(lk.Index) == ssa.Value(p) {
+					pi = i
+				}
+			}
+			if pi < 0 {
+				return
+			}
+			var deriving []ssa.CallInstruction
+			for _, cs := range sitesIn {
+				if args := cs.Common().Args; !cs.Common().IsInvoke() && pi < len(args) && c41derivesFrom(c, args[pi], is, 0) {
+					deriving = append(deriving, cs)
+				}
+			}
+			for _, ex := range oks {
+				if len(deriving) > 0 && len(deriving) == len(sitesIn) {
+					_, no := boolEdges(ex, true)
+					out = append(out, no...)
+				}
+				out = append(out, returned(h, ex, deriving)...)
+			}
+		})
+	}
+	return out
 }
